@@ -32,6 +32,7 @@ type c10cfg struct {
 func drawBlockingStack(t *Tape, kinds []string) StackCfg {
 	var c StackCfg
 	c.Kind = kinds[t.Intn(len(kinds), "kind")]
+	c.DebugLog = t.Chance(25, "debug-logger")
 	c.Strategy = []string{"simple", "precise"}[t.Intn(2, "strategy")]
 	c.Limit = 1 + t.Intn(3, "limit")
 	c.Backlog = 4
@@ -179,9 +180,9 @@ func runC10Rich(r *Run) {
 		kinds: []string{"blocking", "blocking", "deadline", "queue", "queue", "lifo-ctor", "fifo-ctor", "fixedpool", "pool"}, strategies: []string{"simple", "precise"},
 		maxClients: scale(5, 7), arrivals: []time.Duration{0, 0, ms, 2 * ms}, holds: []time.Duration{0, ms, 2 * ms},
 		qTimeouts: []time.Duration{3 * ms, time.Second, time.Hour}, bTimeouts: []time.Duration{0, 2 * ms, time.Hour},
-		deadlines: []time.Duration{5 * ms, time.Hour}, cancelPct: 25, cancelTimes: []time.Duration{ms, 2 * ms, 3 * ms},
+		deadlines: []time.Duration{5 * ms, time.Hour}, cancelPct: 40, cancelTimes: []time.Duration{ms, 2 * ms, 3 * ms},
 		backlogs: []int{4}, limits: []int{1, 2}, relTimes: []time.Duration{0, ms, 2 * ms, 3 * ms},
-		preHeldAll: true,
+		preHeldAll: true, cancelOnReleasePct: 65,
 	})
 	if sc == nil {
 		return
